@@ -536,7 +536,10 @@ def agree(run, fx, rule='PLANEROUTE'):
                     def zalloc2(it_, f_, e_, obj_, args_):
                         n_ = it_.rv(args_[0])
                         return O.It(O.Vec([O.Ptr(None) for _ in range(n_)] if '**' in (e_.get('t') or '').replace(' ', '') else [0] * n_), 0)
-                    natc = {'graphite2::grzeroalloc': zalloc2,
+                    def galloc(it_, f_, e_, obj_, args_):
+                        n_ = it_.rv(args_[0])
+                        return O.It(O.Vec([O.Ptr(None) for _ in range(n_)] if '**' in (e_.get('t') or '').replace(' ', '') else [0xABAB] * n_), 0)          # malloc: whatever the heap held
+                    natc = {'graphite2::grzeroalloc': zalloc2, 'graphite2::gralloc': galloc,
                             'graphite2::Cmap::Cmap': lambda it_, f_, e_, o_, a_: O.Rec(),
                             'graphite2::TtfUtil::Tag::Tag': lambda it_, f_, e_, o_, a_: O.Rec(),
                             'graphite2::Face::Table::Table': lambda it_, f_, e_, o_, a_: O.Rec({'#table': 'cmap'}),
@@ -548,6 +551,14 @@ def agree(run, fx, rule='PLANEROUTE'):
                     it.MAX_STEPS = 150000
                     it.call(fx.one('graphite2::CachedCmap::CachedCmap'), cc, [O.Rec()])
                     nat = natc
+                    dctor = [f__ for f__ in fx.fns_named('graphite2::DirectCmap::DirectCmap') if not f__.f.get('implicit')]
+                    if len(dctor) == 1:
+                        dc = O.Rec()
+                        for f_ in (fx.raw['records'].get('graphite2::DirectCmap') or {}).get('fields', []):
+                            dc[DC + f_['n']] = O.Ptr(None) if '*' in (f_.get('t') or '') else 0
+                        itd = O.Interp(fx, natives=natc)
+                        itd.MAX_STEPS = 20000
+                        itd.call(dctor[0], dc, [O.Rec()])
                     # the face asks the cmap whether it is usable (Face::readGlyphs: `!*m_cmap` fails the load): a cache built from a
                     # well-formed format 4 subtable is, whatever code points it maps -- the direct cmap of the same table is
                     usable = O.Interp(fx, natives=nat).call(fx.one('graphite2::CachedCmap::operator bool'), cc, [])
@@ -576,7 +587,7 @@ def agree(run, fx, rule='PLANEROUTE'):
         run.violated(rule, 'well-formed sub-tables pass their gate', fx.one('graphite2::TtfUtil::CheckCmapSubtable12').where(), chkprob)
     elif chkcases >= 20:
         run.held(rule, 'well-formed sub-tables pass their gate', fx.one('graphite2::TtfUtil::CheckCmapSubtable12').where(), '%d interpreted calls of CheckCmapSubtable4 / 12 on the tables of the agreement run' % chkcases)
-    else:
+    elif not prob:
         run.broken(rule, 'well-formed sub-tables pass their gate', 'only %d gate calls interpreted' % chkcases, ctor.where())
     if prob:
         run.violated(rule, 'cached and direct lookups agree', ctor.where(), prob)
